@@ -20,6 +20,32 @@
 //	    permission bits equal, digest == sha512(source bytes) (no digest for
 //	    CopyFile / nil hasher). Both files are read back from the innermost
 //	    file system, never through FailFS.
+//
+// Shapes. A copy names two paths, and what those paths ARE is a dimension of
+// its own: the helpers open, stat and chmod by name, so each of these calls
+// may or may not follow a link, accept a directory, or find nothing, and the
+// wrappers (BasePathFS, RoFS) may answer differently from the file system
+// they wrap. Every scenario therefore also has a kind of source path (regular
+// file, symbolic link to the file - made on the innermost file system, where
+// a wrapper that offers no links still meets them -, hard link, directory,
+// missing, ...) and a kind of destination path (missing, file with other
+// content and mode, directory, symbolic link to such a file, dangling link,
+// ...), crossed with source sizes that include the EMPTY file: an empty
+// source performs no Write at all, so a copy that cannot succeed has to be
+// refused by the open itself. The oracle for these is the statement's first
+// sentence taken literally:
+//
+//	(d) a nil error implies that the destination path (links followed) is a
+//	    REGULAR FILE holding the source's bytes, with the permission bits of
+//	    the source FILE (what Stat, which follows links, gives on the
+//	    innermost file system - not those of a link or of a directory);
+//	(e) a copy that cannot succeed (the source is a directory, missing or a
+//	    link to either; the destination is a directory) returns a non-nil
+//	    error, without any injected fault and under every single-fault plan;
+//	(f) a copy that can succeed does, fault-free (as (a)).
+//
+// Whether a refused copy leaves the destination as it was is recorded in the
+// evidence, not judged: the statement does not speak of it.
 package main
 
 import (
@@ -141,6 +167,192 @@ func (k *kit) putFile(base string, data []byte, mode fs.FileMode) error {
 }
 
 // ---------------------------------------------------------------------------
+// shapes: what the source path and the destination path are
+//
+// General lesson: code that opens, stats and chmods BY NAME decides three
+// times what the name denotes; a wrapper may decide differently from the file
+// system it wraps. So the kind of node behind each of the two names is
+// enumerated (not only "a file"), the nodes are planted on the innermost file
+// system (a BasePathFS or RoFS cannot make a link itself, its base can), and
+// the empty source is part of the size set because only there nothing but the
+// open stands between an impossible copy and a nil error.
+
+const (
+	kFile       = "file"             // src: regular file                        (plain)
+	kSymlink    = "symlink"          // src/dst: link, relative target, to the file
+	kSymAbs     = "symlink-abs"      // src: link whose target is absolute in the innermost name space
+	kSymChain   = "symlink-chain"    // src: link to a link to the file
+	kHardlink   = "hardlink"         // src/dst: second name of the file
+	kDir        = "dir"              // src/dst: directory
+	kDirFull    = "dir-nonempty"     // dst: directory with an entry
+	kMissing    = "missing"          // src: nothing
+	kSymDangle  = "symlink-dangling" // src/dst: link to nothing
+	kSymDir     = "symlink-dir"      // src/dst: link to a directory
+	kDstAbsent  = "absent"           // dst: nothing                              (plain)
+	kDstPresent = "present"          // dst: file with other content and mode    (plain)
+)
+
+// other is the content and mode of a destination file that exists beforehand.
+const otherMode = 0o660
+
+func otherData(size int) []byte { return pattern(size+4097, 0xA5) }
+
+// srcIsFile says whether the source path, links followed, is a regular file.
+func srcIsFile(kind string) bool {
+	switch kind {
+	case "", kFile, kSymlink, kSymAbs, kSymChain, kHardlink:
+		return true
+	}
+
+	return false
+}
+
+// dstCanHold says whether the destination path can be created or truncated
+// as a regular file (O_CREATE|O_TRUNC follows links, also a dangling one).
+func dstCanHold(kind string) bool {
+	switch kind {
+	case kDir, kDirFull, kSymDir:
+		return false
+	}
+
+	return true
+}
+
+func isLinkKind(kind string) bool { return strings.HasPrefix(kind, "symlink") }
+
+// fsSupports is a fixed table (not the feature flags of the code under test).
+func fsSupports(fsName, kind string) bool {
+	if isLinkKind(kind) && fsName == fsOrefa {
+		return false
+	}
+
+	return true
+}
+
+// putSource plants the source path src.bin of the given kind through the
+// innermost file system; the regular file behind a link is src.real.
+func (k *kit) putSource(kind string, data []byte, mode fs.FileMode) error {
+	v, j := k.raw, func(b string) string { return k.raw.Join(k.rawDir, b) }
+
+	switch kind {
+	case "", kFile:
+		return k.putFile("src.bin", data, mode)
+	case kMissing:
+		return nil
+	case kDir:
+		return v.Mkdir(j("src.bin"), 0o755)
+	case kSymDangle:
+		return v.Symlink("src.real", j("src.bin"))
+	case kSymDir:
+		if err := v.Mkdir(j("src.real"), 0o755); err != nil {
+			return err
+		}
+
+		return v.Symlink("src.real", j("src.bin"))
+	}
+
+	if err := k.putFile("src.real", data, mode); err != nil {
+		return err
+	}
+
+	switch kind {
+	case kSymlink:
+		return v.Symlink("src.real", j("src.bin"))
+	case kSymAbs:
+		return v.Symlink(j("src.real"), j("src.bin"))
+	case kSymChain:
+		if err := v.Symlink("src.real", j("src.mid")); err != nil {
+			return err
+		}
+
+		return v.Symlink("src.mid", j("src.bin"))
+	case kHardlink:
+		return v.Link(j("src.real"), j("src.bin"))
+	}
+
+	return fmt.Errorf("unknown source kind %q", kind)
+}
+
+// putDest plants the destination path dst.bin; what a link points to is
+// dst.real. Source and destination never name the same node.
+func (k *kit) putDest(kind string, size int) error {
+	v, j := k.raw, func(b string) string { return k.raw.Join(k.rawDir, b) }
+
+	switch kind {
+	case kDstAbsent:
+		return nil
+	case kDstPresent:
+		return k.putFile("dst.bin", otherData(size), otherMode)
+	case kDir:
+		return v.Mkdir(j("dst.bin"), 0o755)
+	case kDirFull:
+		if err := v.Mkdir(j("dst.bin"), 0o755); err != nil {
+			return err
+		}
+
+		return v.WriteFile(j("dst.bin/in"), []byte("in"), 0o644)
+	case kSymDangle:
+		return v.Symlink("dst.real", j("dst.bin"))
+	case kSymDir:
+		if err := v.Mkdir(j("dst.real"), 0o755); err != nil {
+			return err
+		}
+
+		return v.Symlink("dst.real", j("dst.bin"))
+	case kSymlink, kHardlink:
+		if err := k.putFile("dst.real", otherData(size), otherMode); err != nil {
+			return err
+		}
+
+		if kind == kHardlink {
+			return v.Link(j("dst.real"), j("dst.bin"))
+		}
+
+		return v.Symlink("dst.real", j("dst.bin"))
+	}
+
+	return fmt.Errorf("unknown destination kind %q", kind)
+}
+
+// snapshot renders everything the scenario planted around a base name
+// (x.bin, x.real, x.mid): kind, permission bits, link target, bytes, entries.
+func (k *kit) snapshot(stem string) string {
+	var sb strings.Builder
+
+	for _, suffix := range []string{".bin", ".real", ".mid"} {
+		p := k.raw.Join(k.rawDir, stem+suffix)
+
+		li, err := k.raw.Lstat(p)
+		if err != nil {
+			fmt.Fprintf(&sb, "%s: -\n", suffix)
+
+			continue
+		}
+
+		fmt.Fprintf(&sb, "%s: %s", suffix, li.Mode())
+
+		switch {
+		case li.Mode()&fs.ModeSymlink != 0:
+			t, _ := k.raw.Readlink(p)
+			sb.WriteString(" -> " + t)
+		case li.IsDir():
+			es, _ := k.raw.ReadDir(p)
+			for _, e := range es {
+				sb.WriteString(" " + e.Name())
+			}
+		case li.Mode().IsRegular():
+			b, _ := k.raw.ReadFile(p)
+			sb.WriteString(" ")
+			sb.Write(b)
+		}
+
+		sb.WriteString("\n")
+	}
+
+	return sb.String()
+}
+
+// ---------------------------------------------------------------------------
 // scenarios, plans, results
 
 type scenario struct {
@@ -151,8 +363,43 @@ type scenario struct {
 	SrcFS      string `json:"srcfs"`
 	Shared     bool   `json:"shared_instance,omitempty"` // source and destination on the same instance
 	Size       int    `json:"size"`
-	DstState   string `json:"dst_state"` // absent | present | n/a
+	SrcKind    string `json:"src_kind,omitempty"` // kind of the source path; empty = file
+	DstState   string `json:"dst_state"`          // kind of the destination path: absent | present | dir | symlink | ... | n/a
 	SrcMode    uint32 `json:"src_mode"`
+
+	noFaults bool // fault-free runs only (not part of a replay: a replay names its plan)
+}
+
+func (s scenario) srcKind() string {
+	if s.SrcKind == "" {
+		return kFile
+	}
+
+	return s.SrcKind
+}
+
+// plain scenarios are the ones the driver always had: a file copied to a
+// missing path or over a file.
+func (s scenario) plain() bool {
+	return s.srcKind() == kFile && (s.DstState == kDstAbsent || s.DstState == kDstPresent || s.Func == "HashFile")
+}
+
+// possible says whether the copy (or hash) can succeed at all.
+func (s scenario) possible() bool {
+	return srcIsFile(s.SrcKind) && (s.Func == "HashFile" || dstCanHold(s.DstState))
+}
+
+// shape is the pair of kinds, for signatures and statistics; empty for plain.
+func (s scenario) shape() string {
+	if s.plain() {
+		return ""
+	}
+
+	if s.Func == "HashFile" {
+		return "src=" + s.srcKind()
+	}
+
+	return "src=" + s.srcKind() + ",dst=" + s.DstState
 }
 
 func (s scenario) pair() string {
@@ -179,7 +426,7 @@ func (s scenario) String() string {
 		u = "+used"
 	}
 
-	return fmt.Sprintf("%s%s %s size=%d dst=%s srcmode=%#o", s.variant(), u, s.pair(), s.Size, s.DstState, s.SrcMode)
+	return fmt.Sprintf("%s%s %s size=%d src=%s dst=%s srcmode=%#o", s.variant(), u, s.pair(), s.Size, s.srcKind(), s.DstState, s.SrcMode)
 }
 
 type plan struct {
@@ -239,6 +486,9 @@ type result struct {
 	Fired      bool     `json:"fault_fired"`
 	Trace      []string `json:"trace"`
 	DstExists  bool     `json:"dst_exists"`
+	DstRegular bool     `json:"dst_is_regular_file"`
+	DstEntry   string   `json:"dst_entry,omitempty"` // mode of the destination path itself (links not followed)
+	DstSame    bool     `json:"dst_as_before"`       // everything planted on the destination side is as before the call (looked at for shapes only)
 	BytesEqual bool     `json:"dst_bytes_equal_src"`
 	PermEqual  bool     `json:"dst_perm_equal_src"`
 	DigestOK   bool     `json:"digest_ok"`
@@ -263,13 +513,23 @@ func injected(kind string, fp *failfs.FailParam) error {
 
 // pattern is the deterministic, non-constant, non-32K-periodic source content.
 func pattern(n int, salt byte) []byte {
-	b := make([]byte, n)
-	for i := range b {
-		b[i] = byte(i*7+i/251) ^ byte(i>>11) ^ salt
+	key := [2]int{n, int(salt)}
+
+	m, ok := patternCache[key]
+	if !ok {
+		m = make([]byte, n)
+		for i := range m {
+			m[i] = byte(i*7+i/251) ^ byte(i>>11) ^ salt
+		}
+
+		patternCache[key] = m
 	}
 
-	return b
+	// a private copy for every caller: the master is never handed to the code under test
+	return append(make([]byte, 0, n), m...)
 }
+
+var patternCache = map[[2]int][]byte{}
 
 type harnessError struct{ msg string }
 
@@ -299,13 +559,23 @@ func run(sc scenario, pl plan) (res result, herr error) {
 
 	srcData := pattern(sc.Size, 0)
 
-	if err = srcKit.putFile("src.bin", srcData, fs.FileMode(sc.SrcMode)); err != nil {
-		return res, harnessError{fmt.Sprintf("setup of source on %s: %v", sc.SrcFS, err)}
+	if err = srcKit.putSource(sc.SrcKind, srcData, fs.FileMode(sc.SrcMode)); err != nil {
+		return res, harnessError{fmt.Sprintf("setup of source (%s) on %s: %v", sc.srcKind(), sc.SrcFS, err)}
 	}
 
-	if !isHash && sc.DstState == "present" {
-		if err = dstKit.putFile("dst.bin", pattern(sc.Size+4097, 0xA5), 0o660); err != nil {
-			return res, harnessError{fmt.Sprintf("setup of destination on %s: %v", sc.DstFS, err)}
+	srcBefore, dstBefore := "", ""
+
+	if !sc.plain() {
+		srcBefore = srcKit.snapshot("src")
+	}
+
+	if !isHash {
+		if err = dstKit.putDest(sc.DstState, sc.Size); err != nil {
+			return res, harnessError{fmt.Sprintf("setup of destination (%s) on %s: %v", sc.DstState, sc.DstFS, err)}
+		}
+
+		if !sc.plain() {
+			dstBefore = dstKit.snapshot("dst")
 		}
 	}
 
@@ -387,41 +657,64 @@ func run(sc scenario, pl plan) (res result, herr error) {
 		res.Digest = hex.EncodeToString(sum)
 	}
 
-	// Read back directly from the innermost file systems.
+	// Read back directly from the innermost file systems. The source is what
+	// its path denotes with links followed: for a source that is not a file
+	// there are no bytes and no permission bits a copy could have.
 	rawSrc := srcKit.raw.Join(srcKit.rawDir, "src.bin")
 
-	srcNow, err := srcKit.raw.ReadFile(rawSrc)
-	if err != nil {
-		return res, harnessError{fmt.Sprintf("read-back of source on %s: %v", sc.SrcFS, err)}
+	var (
+		srcNow  []byte
+		srcPerm fs.FileMode
+	)
+
+	if srcIsFile(sc.SrcKind) {
+		srcNow, err = srcKit.raw.ReadFile(rawSrc)
+		if err != nil {
+			return res, harnessError{fmt.Sprintf("read-back of source on %s: %v", sc.SrcFS, err)}
+		}
+
+		srcInfo, serr := srcKit.raw.Stat(rawSrc)
+		if serr != nil {
+			return res, harnessError{fmt.Sprintf("stat of source on %s: %v", sc.SrcFS, serr)}
+		}
+
+		srcPerm = srcInfo.Mode().Perm()
+		res.SrcLen = len(srcNow)
+		res.SrcChanged = !bytes.Equal(srcNow, srcData) || srcPerm != fs.FileMode(sc.SrcMode) || !srcInfo.Mode().IsRegular()
+		res.SrcPerm = fmt.Sprintf("%#o", srcPerm)
 	}
 
-	srcInfo, err := srcKit.raw.Stat(rawSrc)
-	if err != nil {
-		return res, harnessError{fmt.Sprintf("stat of source on %s: %v", sc.SrcFS, err)}
+	if !sc.plain() && srcKit.snapshot("src") != srcBefore {
+		res.SrcChanged = true
 	}
-
-	res.SrcLen = len(srcNow)
-	res.SrcChanged = !bytes.Equal(srcNow, srcData) || srcInfo.Mode().Perm() != fs.FileMode(sc.SrcMode)
-	res.SrcPerm = fmt.Sprintf("%#o", srcInfo.Mode().Perm())
 
 	if isHash {
-		res.BytesEqual, res.PermEqual, res.DstExists = true, true, true
+		res.BytesEqual, res.PermEqual, res.DstExists, res.DstRegular, res.DstSame = true, true, true, true, true
 	} else {
 		rawDst := dstKit.raw.Join(dstKit.rawDir, "dst.bin")
+
+		if li, lerr := dstKit.raw.Lstat(rawDst); lerr == nil {
+			res.DstEntry = li.Mode().String()
+		}
+
+		res.DstSame = sc.plain() || dstKit.snapshot("dst") == dstBefore
 
 		dstInfo, serr := dstKit.raw.Stat(rawDst)
 		if serr == nil {
 			res.DstExists = true
+			res.DstRegular = dstInfo.Mode().IsRegular()
 			res.DstPerm = fmt.Sprintf("%#o", dstInfo.Mode().Perm())
-			res.PermEqual = dstInfo.Mode().Perm() == srcInfo.Mode().Perm()
+			res.PermEqual = srcIsFile(sc.SrcKind) && dstInfo.Mode().Perm() == srcPerm
+		}
 
+		if res.DstRegular {
 			dstNow, rerr2 := dstKit.raw.ReadFile(rawDst)
 			if rerr2 != nil {
 				return res, harnessError{fmt.Sprintf("read-back of destination on %s: %v", sc.DstFS, rerr2)}
 			}
 
 			res.DstLen = len(dstNow)
-			res.BytesEqual = bytes.Equal(dstNow, srcNow)
+			res.BytesEqual = srcIsFile(sc.SrcKind) && bytes.Equal(dstNow, srcNow)
 		}
 	}
 
@@ -494,7 +787,7 @@ func newBook() *book {
 }
 
 func chkKey(sc scenario, side, prim string) string {
-	return sc.Func + "|" + sc.Hasher + "|" + side + "|" + prim
+	return sc.Func + "|" + sc.Hasher + "|" + side + "|" + prim + "|" + sc.shape()
 }
 
 func (b *book) noteChecked(sc scenario, side, prim string) {
@@ -510,6 +803,15 @@ func (b *book) add(sc scenario, side, prim, kind string, extra map[string]string
 	sig := kf.Sig{"func": sc.Func, "hasher": sc.Hasher, "side": side, "primitive": prim, "kind": kind}
 	for k, v := range extra {
 		sig[k] = v
+	}
+
+	// the kinds of the two paths enter the signature for shapes only, so that
+	// the signatures of the plain scenarios stay what they were
+	if !sc.plain() {
+		sig["src_kind"] = sc.srcKind()
+		if sc.Func != "HashFile" {
+			sig["dst_kind"] = sc.DstState
+		}
 	}
 
 	gk := sig.String()
@@ -615,7 +917,10 @@ func (b *book) flush(rep *kf.Reporter) (groups []map[string]any) {
 // ---------------------------------------------------------------------------
 // replay objects
 
-func goTest(sc scenario, pl plan) string {
+// goTest renders the scenario and the plan as a self-contained Go test with
+// the driver's oracle: plants the two paths on the innermost file systems,
+// makes the call through FailFS and judges error, destination and digest.
+func goTest(sc scenario, pl plan, required bool) string {
 	h := "nil"
 	if sc.Hasher == "sha512" {
 		h = "sha512.New()"
@@ -628,11 +933,11 @@ func goTest(sc scenario, pl plan) string {
 
 	switch sc.Func {
 	case "CopyFile":
-		call = "err := avfs.CopyFile(dst, src, dstPath, srcPath)"
+		call = "var sum []byte\n\terr := avfs.CopyFile(dst, src, dstPath, srcPath)"
 	case "CopyFileHash":
-		call = "_, err := avfs.CopyFileHash(dst, src, dstPath, srcPath, " + h + ")"
+		call = "sum, err := avfs.CopyFileHash(dst, src, dstPath, srcPath, " + h + ")"
 	default:
-		call = "_, err := avfs.HashFile(src, srcPath, " + h + ")"
+		call = "sum, err := avfs.HashFile(src, srcPath, " + h + ")"
 	}
 
 	dstFS := sc.DstFS
@@ -640,11 +945,17 @@ func goTest(sc scenario, pl plan) string {
 		dstFS = sc.SrcFS
 	}
 
+	failing := "none (fault-free run)"
+	if pl.K >= 0 {
+		failing = fmt.Sprintf("%s:%s (#%d of that primitive on that side)", pl.Side, pl.Primitive, pl.Nth)
+	}
+
 	return fmt.Sprintf(`// Plain Go test against the repository (no explorer needed): save as c16_replay_test.go in a
 // module that requires github.com/avfs/avfs, run "go test -run TestC16Replay".
 package c16replay
 
 import (
+	"bytes"
 	"crypto/sha512"
 	"errors"
 	"hash"
@@ -697,12 +1008,49 @@ func pattern(n int, salt byte) []byte {
 	return b
 }
 
-func put(t *testing.T, v avfs.VFS, p string, data []byte, mode fs.FileMode) {
-	if err := v.WriteFile(p, data, 0o644); err != nil {
+func must(t *testing.T, err error) {
+	if err != nil {
 		t.Fatal(err)
 	}
-	if err := v.Chmod(p, mode); err != nil {
-		t.Fatal(err)
+}
+
+func put(t *testing.T, v avfs.VFS, p string, data []byte, mode fs.FileMode) {
+	must(t, v.WriteFile(p, data, 0o644))
+	must(t, v.Chmod(p, mode))
+}
+
+// plant makes the path <stem>.bin of the given kind in dir of the innermost file system; the node behind a link is <stem>.real.
+func plant(t *testing.T, v avfs.VFS, dir, stem, kind string, data []byte, mode fs.FileMode) {
+	bin, realp, mid := v.Join(dir, stem+".bin"), v.Join(dir, stem+".real"), v.Join(dir, stem+".mid")
+	switch kind {
+	case "file", "present":
+		put(t, v, bin, data, mode)
+	case "missing", "absent":
+	case "dir":
+		must(t, v.Mkdir(bin, 0o755))
+	case "dir-nonempty":
+		must(t, v.Mkdir(bin, 0o755))
+		must(t, v.WriteFile(v.Join(bin, "in"), []byte("in"), 0o644))
+	case "symlink-dangling":
+		must(t, v.Symlink(stem+".real", bin))
+	case "symlink-dir":
+		must(t, v.Mkdir(realp, 0o755))
+		must(t, v.Symlink(stem+".real", bin))
+	case "symlink":
+		put(t, v, realp, data, mode)
+		must(t, v.Symlink(stem+".real", bin))
+	case "symlink-abs":
+		put(t, v, realp, data, mode)
+		must(t, v.Symlink(realp, bin))
+	case "symlink-chain":
+		put(t, v, realp, data, mode)
+		must(t, v.Symlink(stem+".real", mid))
+		must(t, v.Symlink(stem+".mid", bin))
+	case "hardlink":
+		put(t, v, realp, data, mode)
+		must(t, v.Link(realp, bin))
+	default:
+		t.Fatalf("unknown kind %%q", kind)
 	}
 }
 
@@ -710,23 +1058,32 @@ func TestC16Replay(t *testing.T) {
 	const (
 		size       = %d
 		srcMode    = %#o
-		dstPresent = %v
+		srcKind    = %q // what the source path is
+		dstKind    = %q // what the destination path is
+		isCopy     = %v
 		shared     = %v // source and destination on the same instance
-		k          = %d // index of the failing consultation = %s:%s (#%d of that primitive on that side)
+		canSucceed = %v // the source (links followed) is a file and the destination is not a directory
+		k          = %d // index of the failing consultation: %s
+		mustReport = %v // a failure of that primitive is in the property's list
+		permDenied = %v // the injected error is a PathError wrapping avfs.ErrPermDenied
+		withDigest = %v
 	)
 	srcTop, srcRaw, srcDir, srcRawDir := mkfs(t, %q)
 	dstTop, dstRaw, dstDir, dstRawDir := srcTop, srcRaw, srcDir, srcRawDir
 	if !shared {
 		dstTop, dstRaw, dstDir, dstRawDir = mkfs(t, %q)
 	}
-	put(t, srcRaw, srcRaw.Join(srcRawDir, "src.bin"), pattern(size, 0), srcMode)
-	if dstPresent {
-		put(t, dstRaw, dstRaw.Join(dstRawDir, "dst.bin"), pattern(size+4097, 0xA5), 0o660)
+	plant(t, srcRaw, srcRawDir, "src", srcKind, pattern(size, 0), srcMode)
+	if isCopy {
+		plant(t, dstRaw, dstRawDir, "dst", dstKind, pattern(size+4097, 0xA5), 0o660)
 	}
 	n := 0
-	ff := func(_ avfs.VFSBase, _ avfs.FnVFS, _ *failfs.FailParam) error {
+	ff := func(_ avfs.VFSBase, _ avfs.FnVFS, fp *failfs.FailParam) error {
 		n++
 		if n-1 == k {
+			if permDenied {
+				return &fs.PathError{Op: fp.Op, Path: fp.Path, Err: avfs.ErrPermDenied}
+			}
 			return errors.New("injected")
 		}
 		return nil
@@ -737,12 +1094,42 @@ func TestC16Replay(t *testing.T) {
 	srcPath, dstPath := srcTop.Join(srcDir, "src.bin"), dstTop.Join(dstDir, "dst.bin")
 	_, _ = dst, dstPath
 	%s
-	if err == nil {
-		t.Fatal("nil error although %s:%s failed")
+	if err != nil {
+		if k < 0 && canSucceed {
+			t.Fatalf("error although nothing failed: %%v", err)
+		}
+		return
+	}
+	if k >= 0 && mustReport {
+		t.Fatal("nil error although consultation k failed")
+	}
+	if !canSucceed {
+		t.Fatal("nil error although this copy cannot succeed")
+	}
+	// nil error: destination (links followed) is a regular file with the bytes and the permission bits of the source file
+	want, rerr := srcRaw.ReadFile(srcRaw.Join(srcRawDir, "src.bin"))
+	must(t, rerr)
+	si, serr := srcRaw.Stat(srcRaw.Join(srcRawDir, "src.bin"))
+	must(t, serr)
+	if isCopy {
+		di, derr := dstRaw.Stat(dstRaw.Join(dstRawDir, "dst.bin"))
+		if derr != nil || !di.Mode().IsRegular() {
+			t.Fatalf("nil error but the destination is not a regular file (%%v, %%v)", di, derr)
+		}
+		got, gerr := dstRaw.ReadFile(dstRaw.Join(dstRawDir, "dst.bin"))
+		if gerr != nil || !bytes.Equal(got, want) {
+			t.Fatalf("nil error but the destination holds %%d bytes that differ from the %%d of the source (%%v)", len(got), len(want), gerr)
+		}
+		if di.Mode().Perm() != si.Mode().Perm() {
+			t.Fatalf("nil error but the destination has permission bits %%#o, the source file %%#o", di.Mode().Perm(), si.Mode().Perm())
+		}
+	}
+	if d := sha512.Sum512(want); withDigest && !bytes.Equal(sum, d[:]) || !withDigest && len(sum) != 0 {
+		t.Fatalf("nil error but the digest is %%x", sum)
 	}
 }
-`, sc.Size, sc.SrcMode, sc.DstState == "present", sc.Shared || sc.Func == "HashFile", pl.K, pl.Side, pl.Primitive, pl.Nth,
-		sc.SrcFS, dstFS, call, pl.Side, pl.Primitive)
+`, sc.Size, sc.SrcMode, sc.srcKind(), sc.DstState, sc.Func != "HashFile", sc.Shared || sc.Func == "HashFile", sc.possible(),
+		pl.K, failing, required, pl.Err == "permdenied", sc.Hasher == "sha512", sc.SrcFS, dstFS, call)
 }
 
 func replayObj(sc scenario, pl plan, base []cons, res result, expected string) any {
@@ -752,14 +1139,18 @@ func replayObj(sc scenario, pl plan, base []cons, res result, expected string) a
 		"fault_free_trace": traceStrings(base),
 		"expected":         expected,
 		"observed":         res,
-		"source_content":   "b[i] = byte(i*7+i/251) ^ byte(i>>11), i < size",
-		"dst_present_is":   "size+4097 bytes of the same pattern xor 0xA5, mode 0660",
+		"source_content":   "b[i] = byte(i*7+i/251) ^ byte(i>>11), i < size; for the link kinds of source the file is src.real and src.bin the link",
+		"dst_present_is":   "size+4097 bytes of the same pattern xor 0xA5, mode 0660 (for the link kinds of destination: that file is dst.real and dst.bin the link); a directory has mode 0755",
+		"planted_on":       "the innermost file system (the base of a BasePathFS, the file system below a RoFS), never through the wrappers",
 		"rerun":            "./check C16 quick -replay <this file>",
 	}
 
-	if pl.K >= 0 {
-		o["go_test"] = goTest(sc, pl)
+	required := false
+	if pl.K >= 0 && pl.K < len(base) {
+		_, required = classOf(base[pl.K])
 	}
+
+	o["go_test"] = goTest(sc, pl, required)
 
 	return o
 }
@@ -781,6 +1172,10 @@ type stats struct {
 	pairs                                map[string]int
 	sampledVariant                       map[string]bool
 	hashFS                               map[string]int
+	shapeOutcome                         map[string]map[string]int // shape -> outcome of the fault-free run -> scenarios
+	refusedDstChanged                    map[string]int            // shape -> refused copies after which the destination side differs
+	shapeScenarios                       int
+	wallPlain, wallShapes                float64
 }
 
 func inc2(m map[string]map[string]int, a, b string) {
@@ -833,10 +1228,21 @@ func checkConverse(bk *book, sc scenario, pl plan, base []cons, res result) {
 		return
 	}
 
+	// (e) nothing the destination could "then hold": the source has no bytes,
+	// or the destination path cannot be a file.
+	if !sc.possible() {
+		bk.add(sc, side, prim, "nil-error-on-impossible-copy", nil,
+			rp("non-nil error: the source is not a file or the destination is a directory (src "+sc.srcKind()+", dst "+sc.DstState+")"))
+
+		return
+	}
+
 	if sc.Func != "HashFile" {
 		switch {
 		case !res.DstExists:
 			bk.add(sc, side, prim, "nil-error-but-dst-missing", nil, rp("nil error only if destination holds the source's bytes"))
+		case !res.DstRegular:
+			bk.add(sc, side, prim, "nil-error-but-dst-not-a-file", nil, rp("nil error only if destination is a regular file holding the source's bytes"))
 		case !res.BytesEqual:
 			bk.add(sc, side, prim, "nil-error-but-dst-bytes-differ", nil, rp("nil error only if destination holds the source's bytes"))
 		}
@@ -870,16 +1276,23 @@ func explore(sc scenario, bk *book, st *stats) error {
 		return fmt.Errorf("%s: %w", sc, err)
 	}
 
-	again, err := run(sc, nofault)
-	if err != nil {
-		return fmt.Errorf("%s: %w", sc, err)
-	}
+	st.runs++
+	st.baseRuns++
 
-	st.runs += 2
-	st.baseRuns += 2
+	// the second fault-free run establishes that the trace the plans index
+	// into is reproducible; a scenario without plans does not need it
+	if !sc.noFaults {
+		again, err := run(sc, nofault)
+		if err != nil {
+			return fmt.Errorf("%s: %w", sc, err)
+		}
 
-	if !sameTrace(base.trace, again.trace) || base.ErrNil != again.ErrNil || base.Digest != again.Digest {
-		return fmt.Errorf("%s: fault-free run is not deterministic: %v / %v", sc, base.Trace, again.Trace)
+		st.runs++
+		st.baseRuns++
+
+		if !sameTrace(base.trace, again.trace) || base.ErrNil != again.ErrNil || base.Digest != again.Digest {
+			return fmt.Errorf("%s: fault-free run is not deterministic: %v / %v", sc, base.Trace, again.Trace)
+		}
 	}
 
 	if base.SrcChanged {
@@ -897,14 +1310,46 @@ func explore(sc scenario, bk *book, st *stats) error {
 	// (a)
 	bk.noteChecked(sc, "-", "none")
 
-	if base.Outcome == "returned" && !base.ErrNil {
+	// (a)/(f): a copy that can succeed does; (e) is part of checkConverse
+	if base.Outcome == "returned" && !base.ErrNil && sc.possible() {
 		bk.add(sc, "-", "none", "error-without-fault", map[string]string{"err": base.ErrKind},
 			func() any { return replayObj(sc, nofault, base.trace, base, "nil error: nothing failed") })
 	}
 
 	checkConverse(bk, sc, nofault, base.trace, base)
 
-	sampled := sc.Size == 32769 && !st.sampledVariant[sc.variant()]
+	if sh := sc.shape(); sh != "" {
+		oc := "non-nil"
+
+		switch {
+		case base.Outcome != "returned":
+			oc = base.Outcome
+		case base.ErrNil:
+			oc = "nil"
+		}
+
+		inc2(st.shapeOutcome, sh, oc)
+
+		if !sc.possible() && !base.DstSame {
+			st.refusedDstChanged[sh]++
+		}
+
+		key := "shape possible=" + strconv.FormatBool(sc.possible())
+		if sc.variant() == "CopyFileHash/sha512" && sc.srcKind() != kFile && sc.DstState != kDstAbsent && !st.sampledVariant[key] {
+			st.sampledVariant[key] = true
+			st.samples = append(st.samples, map[string]any{
+				"scenario": sc.String(), "plan": "no fault", "trace": compress(base.trace), "copy_can_succeed": sc.possible(),
+				"observed_error": map[bool]string{true: "nil", false: base.Err}[base.ErrNil], "dst_entry_after": base.DstEntry,
+				"dst_perm_after": base.DstPerm, "src_perm": base.SrcPerm, "dst_as_before": base.DstSame,
+			})
+		}
+	}
+
+	if sc.noFaults {
+		return nil
+	}
+
+	sampled := sc.plain() && sc.Size == 32769 && !st.sampledVariant[sc.variant()]
 	if sampled {
 		st.sampledVariant[sc.variant()] = true
 		st.samples = append(st.samples, map[string]any{"scenario": sc, "plan": "no fault", "trace": compress(base.trace), "error_is_nil": base.ErrNil})
@@ -1050,7 +1495,100 @@ func scenarios(tier string) []scenario {
 		}
 	}
 
+	// shapes: kind of the source path x kind of the destination path x sizes
+	// that include the empty file, on every pair; after the plain scenarios so
+	// that a budget cuts the newer dimension first.
+	sh := shapes(tier)
+	inPlain := map[int]bool{}
+
+	for _, n := range sizes {
+		inPlain[n] = true
+	}
+
+	skipped := 0
+
+	for _, size := range sh.sizes {
+		for _, p := range pairs {
+			for _, sk := range sh.srcKinds {
+				for _, dk := range sh.dstKinds {
+					if !fsSupports(p.src, sk) || !fsSupports(p.dst, dk) {
+						skipped++
+
+						continue
+					}
+
+					if sk == kFile && (dk == kDstAbsent || dk == kDstPresent) && inPlain[size] {
+						continue // already above
+					}
+
+					for _, mode := range []uint32{0o644, 0o400} {
+						for _, v := range [][2]string{{"CopyFile", "none"}, {"CopyFileHash", "nil"}, {"CopyFileHash", "sha512"}} {
+							out = append(out, scenario{
+								Func: v[0], Hasher: v[1], DstFS: p.dst, SrcFS: p.src, Shared: p.shared, Size: size,
+								SrcKind: sk, DstState: dk, SrcMode: mode, noFaults: !sh.faults(v[1], size),
+							})
+						}
+					}
+				}
+			}
+		}
+
+		for _, f := range hashFS {
+			for _, sk := range sh.srcKinds {
+				if !fsSupports(f, sk) {
+					skipped++
+
+					continue
+				}
+
+				if sk == kFile && inPlain[size] {
+					continue
+				}
+
+				for _, mode := range []uint32{0o644, 0o400} {
+					out = append(out, scenario{
+						Func: "HashFile", Hasher: "sha512", DstFS: "-", SrcFS: f, Size: size,
+						SrcKind: sk, DstState: "n/a", SrcMode: mode, noFaults: !sh.faults("sha512", size),
+					})
+				}
+			}
+		}
+	}
+
+	skippedUnsupported = skipped
+
 	return out
+}
+
+// shapeSpace is the part of the space that varies what the two paths are.
+type shapeSpace struct {
+	srcKinds, dstKinds []string
+	sizes              []int
+	faults             func(hasher string, size int) bool // single-fault plans too?
+	faultsText         string
+}
+
+var skippedUnsupported int
+
+func shapes(tier string) shapeSpace {
+	if tier == "quick" {
+		return shapeSpace{
+			srcKinds: []string{kFile, kSymlink, kHardlink, kDir, kMissing},
+			dstKinds: []string{kDstAbsent, kDstPresent, kDir, kSymlink, kSymDangle},
+			sizes:    []int{0, 1, 32769},
+			// the sha512 variant runs everything the others run (CopyFile is CopyFileHash with a nil hasher)
+			faults:     func(hasher string, size int) bool { return hasher == "sha512" && size <= 1 },
+			faultsText: "fault-free for every function variant and size; every single-fault plan for the sha512 variants (CopyFileHash, HashFile) at sizes 0 and 1",
+		}
+	}
+
+	return shapeSpace{
+		srcKinds:   []string{kFile, kSymlink, kSymAbs, kSymChain, kHardlink, kDir, kMissing, kSymDangle, kSymDir},
+		dstKinds:   []string{kDstAbsent, kDstPresent, kDir, kDirFull, kSymlink, kSymDangle, kSymDir, kHardlink},
+		sizes:      []int{0, 1, 32768, 32769},
+		faults:     func(string, int) bool { return true },
+		faultsText: "fault-free and every single-fault plan for every function variant and size",
+	}
 }
 
 // ---------------------------------------------------------------------------
@@ -1138,7 +1676,7 @@ func doReplay(path string) int {
 		if required && res.Outcome == "returned" && res.ErrNil {
 			bk.add(sc, pl.Side, pl.Primitive, "nil-error-on-failure", nil, func() any { return nil })
 		}
-	} else if res.Outcome == "returned" && !res.ErrNil {
+	} else if res.Outcome == "returned" && !res.ErrNil && sc.possible() {
 		bk.add(sc, "-", "none", "error-without-fault", nil, func() any { return nil })
 	}
 
@@ -1206,6 +1744,7 @@ func main() {
 		classSeen: map[string]int{}, classInjected: map[string]int{}, unlisted: map[string]map[string]int{},
 		baseTraces: map[string]map[string]int{}, traceLens: map[int]int{}, pairs: map[string]int{},
 		sampledVariant: map[string]bool{}, hashFS: map[string]int{},
+		shapeOutcome: map[string]map[string]int{}, refusedDstChanged: map[string]int{},
 	}
 	bk := newBook()
 	all := scenarios(*tier)
@@ -1226,8 +1765,17 @@ func main() {
 			break
 		}
 
+		t0 := time.Now()
+
 		if err := explore(sc, bk, st); err != nil {
 			die("%v", err)
+		}
+
+		if sc.plain() {
+			st.wallPlain += time.Since(t0).Seconds()
+		} else {
+			st.wallShapes += time.Since(t0).Seconds()
+			st.shapeScenarios++
 		}
 
 		done++
@@ -1277,6 +1825,7 @@ func main() {
 	sort.Strings(pairNames)
 
 	sizes, _, _, _ := space(*tier)
+	sh := shapes(*tier)
 
 	if len(st.samples) == 0 {
 		st.samples = append(st.samples, "no scenario executed (budget)")
@@ -1285,7 +1834,7 @@ func main() {
 	cov := map[string]any{
 		"evaluations":         st.runs,
 		"distinct_nontrivial": len(st.faultClasses),
-		"rule": "evaluations = executions of the real CopyFile/CopyFileHash/HashFile on fresh instances (2 fault-free runs per scenario + one run per " +
+		"rule": "evaluations = executions of the real CopyFile/CopyFileHash/HashFile on fresh instances (2 fault-free runs per scenario - 1 for a scenario that is run fault-free only - + one run per " +
 			"(consultation index k of the fault-free trace, error E in {sentinel, PathError{ErrPermDenied}})); distinct_nontrivial = number of distinct " +
 			"(function variant, side, FnVFS primitive, E) fault classes whose injected consultation was actually reached and returned E in the run " +
 			"(verified against the run's own trace)",
@@ -1308,12 +1857,20 @@ func main() {
 		"source_changed_runs":                      st.srcChanged,
 		"violation_groups":                         groups,
 		"exhaustive":                               exhaustive,
-		"bound":                                    "single fault per run; every k of every fault-free trace; " + *tier + " space",
-		"known_findings_matched":                   append([]string{}, rep.KnownMatched()...),
-		"scratch_is_tmpfs":                         tmpfs,
-		"concurrent_programs":                      cProgs,
-		"concurrent_schedules":                     cExecs,
-		"concurrent_samples":                       cSamples,
+		"bound": "single fault per run; every k of every fault-free trace; " + *tier + " space. Shapes: every (kind of source path, kind of destination path) of the listed kinds x shape sizes x every fs pair x every function variant; on them: " +
+			sh.faultsText,
+		"shape_source_kinds":                        sh.srcKinds,
+		"shape_destination_kinds":                   sh.dstKinds,
+		"shape_sizes":                               sh.sizes,
+		"shape_scenarios":                           st.shapeScenarios,
+		"shape_fault_free_outcomes":                 st.shapeOutcome,
+		"shape_combinations_skipped_no_links_in_fs": skippedUnsupported,
+		"shape_refused_copies_dst_side_differs(recorded, not judged)": st.refusedDstChanged,
+		"known_findings_matched": append([]string{}, rep.KnownMatched()...),
+		"scratch_is_tmpfs":       tmpfs,
+		"concurrent_programs":    cProgs,
+		"concurrent_schedules":   cExecs,
+		"concurrent_samples":     cSamples,
 	}
 
 	werr := ev.Write(filepath.Join(verifDir, "evidence", *id+".json"), ev.Evidence{
@@ -1322,6 +1879,12 @@ func main() {
 			"single fault per run (no multi-fault plans)",
 			"FailFS is the fault-injection seam: a failure is a non-nil return of the FailFunc before the base primitive runs; partial writes/short reads of a base file system are not modelled",
 			"source sizes " + fmt.Sprint(sizes) + " with one deterministic non-periodic content; destination absent or present (longer, mode 0660); source mode 0644/0400; administrator user; umask 022",
+			"shapes: source path of kinds " + fmt.Sprint(sh.srcKinds) + " x destination path of kinds " + fmt.Sprint(sh.dstKinds) + " x sizes " + fmt.Sprint(sh.sizes) +
+				" (the empty source performs no Write), planted on the innermost file system (links with relative targets in the same directory, symlink-abs: absolute in the innermost name space); " +
+				"link kinds are skipped where the innermost file system has no symbolic links (OrefaFS); " + sh.faultsText,
+			"a nil error is judged against the source FILE (links followed on the innermost file system): the destination path, links followed, must be a regular file with its bytes and permission bits; " +
+				"a source that is a directory, missing or a link to either, or a destination that is a directory (or a link to one), must give a non-nil error; whether a refused copy leaves the destination untouched is recorded, not judged",
+			"source and destination never name the same node (no copy of a file onto itself or onto a link to itself)",
 			"OsFS instances live on a scratch directory (tmpfs: " + strconv.FormatBool(tmpfs) + ") and share the process",
 			"failure of closing the source file is not in the property's list: recorded, not required to be reported",
 			"sequential execution (verifrt.ModeSeq); FailFS wrappers on both sides share one consultation counter",
@@ -1336,6 +1899,8 @@ func main() {
 
 	fmt.Printf("c16: tier=%s scenarios=%d/%d runs=%d (fault-free %d, single-fault %d) fault classes=%d copy fs pairs=%d hashfile fs=%d violation groups=%d new signatures=%d exhaustive=%v wall=%.1fs\n",
 		*tier, done, len(all), st.runs, st.baseRuns, st.faultRuns, len(st.faultClasses), len(st.pairs), len(st.hashFS), len(groups), rep.NewCount(), exhaustive, ev.Elapsed())
+	fmt.Printf("c16: shapes (kind of source path x kind of destination path): scenarios=%d distinct shapes=%d skipped as unsupported by the file system=%d wall plain=%.1fs shapes=%.1fs\n",
+		st.shapeScenarios, len(st.shapeOutcome), skippedUnsupported, st.wallPlain, st.wallShapes)
 
 	_ = os.RemoveAll(scratchRoot)
 
